@@ -1,8 +1,10 @@
-HOOK_COMMITS = ["12d7c58"]
+HOOK_COMMITS = ["12d7c58", "4dee075"]
 NOT_CLAIMED = {}
 COMMON_NOTE = ("Trusted: Coq 8.16.1 kernel (coqchk in the thorough tier), no axioms (every pinned theorem is `Closed under the global context`), "
                "ExtrOcamlBasic extraction + ocamlopt + the OCaml/Python glue, the Rust harness and its oracles. The model is hand-written: "
                "the theorems are about the model, and only the correspondence run (differential testing on generated and corpus cases) ties it to /repo. ")
+TIE = ("Tie to the code: scripts (start / server response / clock advance / next / finish / faults / handle drop) run on the real driver over an in-memory transport on a paused-clock current-thread runtime "
+       "and on the extracted model (Conn.step driven by ocaml/connrun.ml); the observation after EVERY step (per-operation status and delivered tokens, request log, id table, routing gauges, driver result) must be identical; ")
 CLAIMS = {
  "C07": dict(
   text="Proved for the model of lber's encoder/parser/integer encoder: every definite-length encoding (any legal length-of-length) of a tree with tag numbers <= 30 "
@@ -24,9 +26,8 @@ CLAIMS = {
        "the frame is delivered or rejected, never waited for (c11_decode_no_wedge); parsed trees never nest deeper than the limit, which bounds recursion (c11_depth_bounded); "
        "the repairs reject nothing valid (c11_repairs_reject_nothing_valid). Tie to the code: exhaustive 1-byte and selected 2-byte inputs, every single-field mutation of every "
        "node of a 16-message corpus, length-octet mutations at every TLV, random bytes and nests up to 20000 levels through the real decoder; outcome classes compared with the model; "
-       "oracle: no panic, no wedge.",
-  note=COMMON_NOTE + "Stack bytes are not modelled, only recursion depth; the lane runs the real parser on 20000-level nests. Driver-level clauses (pending operations observe the decoding error; "
-       "unknown operation under a live search id) belong to the connection model and are checked in C04's lane."),
+       "oracle: no panic, no wedge. Driver level: c11_driver_never_panics on the connection model (F5 repaired), tied by the conn/fault script lanes (unknown operation kinds and faults under live ids).",
+  note=COMMON_NOTE + "Stack bytes are not modelled, only recursion depth; the lane runs the real parser on 20000-level nests. That every pending operation observes the decoding error is C04's theorem (c04_no_pending_after_end) and fault lane."),
  "C03": dict(
   text="Proved for the model of the result conversion and of the repaired decoder: for every well-formed response of the 8 kinds (result code < 2^32, UTF-8 matched DN / text / referral URIs, "
        "optional SASL creds and extended name/value) the converted struct equals the server's fields (c03_result_of_spec); composed with C06/C07, this holds from ANY definite-length encoding of the whole "
@@ -71,4 +72,27 @@ CLAIMS = {
        "WhoAmI / StartTxn (UTF-8 octets), PasswordModify. Tie to the code: every struct with boundary sizes and cookies up to 70000 bytes -> OID/criticality/value bytes vs the extracted model; spec-encoded response values "
        "with random length forms -> parsed structs vs the model; an independent encoder/reader written from the RFCs is the oracle for each kind.",
   note=COMMON_NOTE + "Translator trusted for the constants table. MatchedValues is modelled and compared (its string grammar is the library's, RFC 3876 items); ProxyAuth/TxnSpec/ManageDsaIT/RelaxRules carry raw or no values. EndTxnResp is outside the property."),
+ "C01": dict(
+  text="Proved on the connection model (an event system: any list of Start / DrvOp / DrvScrub / DrvResp / DrvEnd / ServerSend / CliPoll / StreamNext / StreamFinish / Advance events, i.e. every interleaving and every resolution of the driver's ready-event races), with or without the repairs: "
+       "everything an operation can ever be handed carries its own message id (c01_routed_by_id); what it has been handed is an order-preserving, gap-free selection of what the server sent (c01_in_order, c01_no_gaps); a search's item channel is exactly the responses the driver routed to it (c01_items_exact, c01_routes_to_registered); "
+       "a response matching no outstanding operation changes nothing but the wire queue and the log (c01_unmatched_noop). Chunking is C06's theorem. " + TIE + "independent oracle: every token delivered to an operation was sent by the script under that operation's id, in order.",
+  note=COMMON_NOTE + "Modelled, not verified: Tokio's scheduler and channel semantics, select! as nondeterministic choice. Callers on a current-thread runtime (Start = allocate + enqueue); multi-thread callers are not modelled."),
+ "C04": dict(
+  text="Proved on the connection model: the accounting invariant holds after every history (c04_invariant_reachable), hence once the driver has ended no reply channel is empty and no item channel is open (c04_no_pending_after_end), a waiting poll completes with the delivered value or an error and a stream's next() with an item or an error (c04_poll_completes, c04_stream_next_completes), "
+       "later operations fail at once (c04_later_ops_fail); every listed cause ends the driver and it stays ended (c04_end_causes, c04_ended_stays_ended); Unbind ends the repaired driver (c04_unbind_ends_driver, F15). " + TIE +
+       "fault lane: three fixed exchanges cut at every step boundary (and mid-message) x EOF, garbage, read error, write error, partial message, handle drop, unbind, followed by a poke of every stream and one more operation; oracle: nothing pending once the driver has ended, transport closed.",
+  note=COMMON_NOTE + "PARTIAL: liveness is proved as 'driver ended => nothing pending' + 'each cause ends the driver'; that the real runtime schedules the tasks is assumed. Delivered-data-survives is checked by the lane (statuses are compared at every step), not yet a theorem. "
+       "StartTLS establishment hanging when the server closes or speaks out of turn without a connection timeout (F18) is a known finding of the establishment path (see C17/C18 lanes)."),
+ "C05": dict(
+  text="Proved: for every counter position 0..MAX and every in-use set with fewer than MAX-1 elements, next_msgid returns an id in 1..2^31-1, not in use, the first free one in cyclic order after the counter (c05_next_is_first_free; closed form of the i-th candidate, pigeonhole); on the connection model, in every history of fewer than 2^31-1 events the k-th operation carries id k, so no two operations share an id (c05_ids_in_order). "
+       "Tie to the code: the hook positions the table around the wrap point with random in-use sets and the next 1-10 ids are read from the wire and compared with the model and with the property itself (range, distinctness, cyclic-first-free); every conn script also compares the id table after each step.",
+  note=COMMON_NOTE + "PARTIAL: beyond a wrap of the 31-bit counter the connection-level statement is false of the code (stale scrub requests can free a re-issued id: F20, a known finding); multi-thread callers are not modelled (Start is atomic)."),
+ "C12": dict(
+  text="Proved on the connection model: before the deadline a poll changes nothing, at the deadline the caller gets Timeout and a scrub is queued, an arrived response wins whatever the clock says (c12_pending_before_deadline, c12_fires_at_deadline, c12_response_wins); for a search the timeout applies to each next() call from its own start "
+       "(c12_stream_item_wins, c12_stream_call_starts, c12_stream_pending, c12_stream_fires); no client-side event stops the driver (c12_driver_survives); after the scrub the id is free and unrouted and the late reply is dropped (c12_after_scrub, c12_late_reply_dropped). " + TIE + "one script in four gives every operation a timeout of 0/1/1000/5000 ms with clock advances of 1/999/1000/1001/4000/5000 ms.",
+  note=COMMON_NOTE + "PARTIAL: known finding F20 (a second scrub of a re-issued id, reachable only across a counter wrap or with the hook). tokio::time on a paused clock is trusted to fire at the millisecond deadline."),
+ "C13": dict(
+  text="Proved on the repaired connection model (F8, F9, F15, F16): an ownership invariant (every id in use is owned by a queued scrub, a queued operation or a routing entry; six clauses) is preserved by all ten events, hence in every history of fewer than 2^31-1 events a quiescent state has no reserved id and empty routing maps (c13_below_wrap), "
+       "and in histories of any length that never issued an id twice (c13_all_schedules_partial, with c13_hypotheses_met). Abandon: the request names the id, the waiting caller is released with an error and the id is released when a routing entry existed. " + TIE + "one script in four is driven to quiescence; oracle: nothing reserved or routed when no operation is outstanding.",
+  note=COMMON_NOTE + "PARTIAL beyond the wrap point (as C05)."),
 }
